@@ -193,6 +193,16 @@ def thread_check(ctx, seed):
         return thread_probe(ctx, 'get_cycle_vector(return_good=True) / Cycles', calls, 8, tcase, interval=1e-6)
 
 
+def long_phase(L, pos, variant):
+    one = np.linspace(0.01, 2 * np.pi - 0.01, L)
+    mid = one.copy()
+    if variant == 'swap':
+        mid[pos], mid[pos + 1] = mid[pos + 1], mid[pos]        # one backward step
+    elif variant == 'flat':
+        mid[pos + 1] = mid[pos]                                # one flat step
+    return np.concatenate([one, mid, one])
+
+
 def masks_for(rng, n):
     m1 = rng.random(n) > .05
     m2 = np.ones(n, dtype=bool)
@@ -206,6 +216,15 @@ def run_shard(ctx):
     idx = 0
     if ctx.shard % 4 == 3:
         thread_check(ctx, int(rng.integers(1 << 30)))
+    for _ in range(3):
+        # very long (slow) cycles with a single flat or backward step at a round position inside the middle one
+        L = int(gens.pick(rng, [12500, 20000, 40000, 70000]))
+        pos = int(gens.pick(rng, [1000, 4096, 8192, 10000, 16384, 20000, 32768, 65536])) - int(gens.pick(rng, [0, 0, 1]))
+        if pos >= L - 2:
+            pos = 10000 - 1
+        variant = gens.pick(rng, ['swap', 'swap', 'flat', 'flat', 'none'])
+        ctx.count('very_long_cycles')
+        check(ctx, long_phase(L, pos, variant), np.pi / 12, None, STEP, {'kind': 'c13long', 'L': L, 'pos': pos, 'variant': variant}, 'long', container=False)
     for L in range(2, MAXLEN[ctx.tier] + 1):
         for seq in itertools.product(ALPHA, repeat=L):
             idx += 1
@@ -308,6 +327,8 @@ def replay(ctx, case):
             if not thread_check(ctx, case['seed']):
                 break
         return
+    if case.get('kind') == 'c13long':
+        return check(ctx, long_phase(case['L'], case['pos'], case['variant']), np.pi / 12, None, STEP, case, 'replay', container=False)
     if case.get('kind') == 'c13multi':
         from emd import cycles as C
         P = np.asarray(case['phase'], float)
